@@ -600,6 +600,10 @@ def _flatten(graph):
     return out
 
 
+def _poisoned_rule():
+    raise AssertionError("a rule that a caller put into his own copy of a reported graph was executed")
+
+
 def check_graph(case):
     import scipp as sc
     import scippneutron as scn
@@ -672,6 +676,27 @@ def check_graph(case):
         # wrong kernel cannot hide behind self-consistency)
         if out.status == "value":
             compare(target, res.coords[target], out.value, env, _describe(case))
+    # "the graph reported for the same arguments is the one that is used" also after the caller has
+    # edited the reported graphs (they are his): the next conversion must not pick up the edits
+    # (seeded/C02-s10: graphs built once at module level and handed out without a copy)
+    for g in (graph, again, explicit, explicit2):
+        for k in list(g):
+            g[k] = _poisoned_rule
+        g["__edited_by_caller__"] = _poisoned_rule
+    try:
+        status2, res2 = _convert(build(case), case)
+    except Exception as e:  # noqa: BLE001 - the first, identical conversion did not raise this
+        raise Violation("graph-shared", f"{_describe(case)}: after the caller edited the graphs returned by "
+                        f"deduce_conversion_graph / conversion_graph, the same conversion raises "
+                        f"{type(e).__name__}: {str(e)[:160]}") from e
+    if status2 != status or (status == "value" and not sc.identical(res2, res)):
+        raise Violation("graph-shared", f"{_describe(case)}: after the caller edited the graphs returned by "
+                        f"deduce_conversion_graph / conversion_graph, the same conversion gives {status2} "
+                        f"instead of the earlier {status}" + (" with other values" if status2 == status else ""))
+    fresh = scn.conversion_graph(origin, target, scatter, ENERGY_MODE_NAME[out.mode])
+    if any(v is _poisoned_rule for v in fresh.values()):
+        raise Violation("graph-shared", f"conversion_graph for {_describe(case)} hands out rules that an earlier "
+                        "caller had put into his copy of the graph")
     return labs, status == "value" and out.status == "value" and len(out.computed) > 0
 
 
